@@ -104,6 +104,11 @@ def run_ch(path, func, timeout, templates):
         import vf.ch_templates as tpl
 
         tpl.install()
+    # CrossHair bypasses functools caches (every call goes to __wrapped__).  The code under test has none today; if a change
+    # introduces one, its effect on later calls is part of the behaviour being decided, so the real wrapper stays in force.
+    import functools
+    from crosshair import core as _core
+    _core._PATCH_REGISTRATIONS.pop(functools._lru_cache_wrapper.__call__, None)
     mod = _load(path)
     fn = getattr(mod, func)
     opts = AnalysisOptionSet(per_condition_timeout=float(timeout), report_all=True,
